@@ -43,6 +43,8 @@ func (r *Run) allocated(st *State, t Term) Term {
 func (r *Run) knownFacts(st *State, t Term, T types.Type) {
 	T = types.Unalias(T)
 	if isTimeTime(T) {
+		r.assume(st, app("Bool", "wf_time", t))
+		r.noteAssume("time.Time values denote instants in years 1..9999 (what metav1.Time can serialise)")
 		return
 	}
 	switch tt := T.Underlying().(type) {
